@@ -9,43 +9,45 @@ From RV Require Import Proofs.GateProofs.
 Import ListNotations.
 Open Scope Z_scope.
 
-(* required = true: for EVERY operation history from a fresh transport and every position i, whatever
+(* da / db: whether the transport's / the bridge target's socket is a datagram (UDP) socket or an RFC 4571 TCP
+   stream (on which the non-blocking senders emit nothing); the statements hold for both.
+   required = true: for EVERY operation history from a fresh transport and every position i, whatever
    operation i writes on the transport's own socket (send, send_rtp, send_rtcp, sync BYE, close) is protected
    under the key set installed by the LAST InstallKeys before i -- in particular there is such an InstallKeys *)
-Theorem C14_no_clear_out : forall rb ops i outs w,
-  nth_error (trace (init true rb) ops) i = Some outs -> In (Wire SockA w) outs ->
+Theorem C14_no_clear_out : forall da db rb ops i outs w,
+  nth_error (trace (init_on da db true rb) ops) i = Some outs -> In (Wire SockA w) outs ->
   exists k p, w = Prot k Tx p /\ last_a None (firstn i ops) = Some k /\ In (InstallKeys k) (firstn i ops).
 Proof. exact no_clear_out. Qed.
 
 (* ... hence nothing at all leaves before keys exist *)
-Theorem C14_silent_before_keys : forall rb ops i outs w,
-  nth_error (trace (init true rb) ops) i = Some outs ->
+Theorem C14_silent_before_keys : forall da db rb ops i outs w,
+  nth_error (trace (init_on da db true rb) ops) i = Some outs ->
   (forall k, ~ In (InstallKeys k) (firstn i ops)) -> ~ In (Wire SockA w) outs.
 Proof. exact silent_before_keys. Qed.
 
 (* the rewrite bridge: the TARGET's required flag and the TARGET's slot decide; whatever the source's mode *)
-Theorem C14_no_clear_out_bridge : forall ra ops i outs w,
-  nth_error (trace (init ra true) ops) i = Some outs -> In (Wire SockB w) outs ->
+Theorem C14_no_clear_out_bridge : forall da db ra ops i outs w,
+  nth_error (trace (init_on da db ra true) ops) i = Some outs -> In (Wire SockB w) outs ->
   exists k p, w = Prot k Tx p /\ last_b None (firstn i ops) = Some k /\ In (TInstallKeys k) (firstn i ops).
 Proof. exact no_clear_out_bridge. Qed.
 
-Theorem C14_bridge_silent_before_keys : forall ra ops i outs w,
-  nth_error (trace (init ra true) ops) i = Some outs ->
+Theorem C14_bridge_silent_before_keys : forall da db ra ops i outs w,
+  nth_error (trace (init_on da db ra true) ops) i = Some outs ->
   (forall k, ~ In (TInstallKeys k) (firstn i ops)) -> ~ In (Wire SockB w) outs.
 Proof. exact bridge_silent_before_keys. Qed.
 
 (* required = true: whatever is handed to a track listener, the RTCP listener, the ingress observer or the
    bridge, at any position of any history, authenticated under the key set installed by the last InstallKeys,
    and is the protected packet that this very operation received *)
-Theorem C14_no_clear_in : forall rb ops i outs snk d,
-  nth_error (trace (init true rb) ops) i = Some outs -> In (Deliver snk d) outs -> inbound snk = true ->
+Theorem C14_no_clear_in : forall da db rb ops i outs snk d,
+  nth_error (trace (init_on da db true rb) ops) i = Some outs -> In (Deliver snk d) outs -> inbound snk = true ->
   exists k p, d = Auth k p /\ last_a None (firstn i ops) = Some k /\
               (nth_error ops i = Some (RecvRtp (Prot k Rx p)) \/ nth_error ops i = Some (RecvRtcp (Prot k Rx p))).
 Proof. exact no_clear_in. Qed.
 
 (* ... and what the bridged peer is sent is such an authenticated packet *)
-Theorem C14_bridge_in : forall rb ops i outs w,
-  nth_error (trace (init true rb) ops) i = Some outs -> In (Wire SockB w) outs ->
+Theorem C14_bridge_in : forall da db rb ops i outs w,
+  nth_error (trace (init_on da db true rb) ops) i = Some outs -> In (Wire SockB w) outs ->
   exists k p, nth_error ops i = Some (RecvRtp (Prot k Rx p)) /\ wire_pid w = p /\
               last_a None (firstn i ops) = Some k.
 Proof. exact bridge_in. Qed.
@@ -53,8 +55,8 @@ Proof. exact bridge_in. Qed.
 (* racing tasks: each operation evaluates its gate atomically (one read of the slot under its mutex), so a
    concurrent execution is an interleaving of the tasks' operation lists; every interleaving is an operation
    list (a permutation of all the tasks' operations), hence safe *)
-Theorem C14_racing : forall tasks merged ra rb,
-  Interleave tasks merged -> Permutation (List.concat tasks) merged /\ safe_history ra rb merged.
+Theorem C14_racing : forall tasks merged da db ra rb,
+  Interleave tasks merged -> Permutation (List.concat tasks) merged /\ safe_history da db ra rb merged.
 Proof. exact racing. Qed.
 
 (* a socket write that completes after later operations (it happens after the gate released its locks) is
@@ -102,3 +104,24 @@ Proof. exact ctor_sites_ok. Qed.
 (* the gated senders the model describes exist in the census *)
 Theorem C14_sites_present : Forall (fun s => snd s = DtlsRecord \/ In (fst s) send_sites) allowed_sites.
 Proof. exact gated_sites_present. Qed.
+
+(* ... no function other than the listed ones takes or returns the raw connection, no struct other than
+   RtpTransport and the DTLS transport stores it *)
+Theorem C14_carriers : Forall (fun c => In c allowed_carriers) ice_conn_carriers.
+Proof. exact carriers_allowed. Qed.
+
+Theorem C14_holders : Forall (fun c => In c allowed_holders) ice_conn_holders.
+Proof. exact holders_allowed. Qed.
+
+(* ... the traits implemented for IceConn (what a trait object holding one can do) and the PacketReceiver impls
+   contain no send / socket-write site, and no macro mentions a sender *)
+Theorem C14_trait_objects :
+  Forall (fun c => In c allowed_trait_impls) ice_conn_trait_impls /\
+  Forall (fun c => In c allowed_receiver_impls) packet_receiver_impls /\ send_macros = [].
+Proof. exact trait_impls_allowed. Qed.
+
+(* the only byte-dependent outcome of the model comparison (protected RTCP fed to the plain RTCP parser) arises
+   only in a transport that is not SRTP-mandatory and has no keys: the property does not speak about it *)
+Theorem C14_plain_rtcp_only_unprotected_mode : forall s o,
+  plain_rtcp_path s o = true -> required (a s) = false /\ session (a s) = None.
+Proof. exact plain_rtcp_path_unprotected. Qed.
